@@ -574,7 +574,7 @@ fn main() {
         }
     });
     let mut ev = ev;
-    if args.only.is_none() && args.shard == 0 {
+    if args.blocks() {
         default_boundaries(&mut ev);
     }
     ev.finish(
